@@ -19,6 +19,7 @@ fn integers_and_specs_equal_core_fmt() {
         )*}}
         spec!("{:01}" "{:02}" "{:03}" "{:04}" "{:05}" "{:09}" "{:010}" "{:012}");
         spec!("{:01X}" "{:02X}" "{:04X}" "{:06X}" "{:08X}" "{:010X}");
+        spec!("{:x}" "{:X}" "{:04x}" "{:08x}" "{:1}" "{:2}" "{:4}" "{:>5}" "{:<5}" "{:<2}" "{:12}");
     }
     for v in 0..=255u8 {
         assert_eq!(shim(|w| lite_write!(w, "{:02}", v)), format!("{:02}", v));
@@ -26,6 +27,8 @@ fn integers_and_specs_equal_core_fmt() {
         let i = v as i8;
         assert_eq!(shim(|w| lite_write!(w, "{}", i)), format!("{}", i));
         assert_eq!(shim(|w| lite_write!(w, "{:04}", i)), format!("{:04}", i));
+        assert_eq!(shim(|w| lite_write!(w, "{:2}", v)), format!("{:2}", v));
+        assert_eq!(shim(|w| lite_write!(w, "{:4}|{:<4}|", i, i)), format!("{:4}|{:<4}|", i, i));
     }
     for v in [0u16, 7, 99, 100, 1979, 9999, 10000, u16::MAX] {
         assert_eq!(shim(|w| lite_write!(w, "{:04}", v)), format!("{:04}", v));
@@ -102,4 +105,61 @@ fn rerooted_toml_write_equals_the_real_crate() {
         assert_eq!(toml_write::ToTomlValue::to_toml_value(&x), tw::ToTomlValue::to_toml_value(&x));
     }
     assert_eq!(toml_write::ToTomlValue::to_toml_value(&true), tw::ToTomlValue::to_toml_value(&true));
+}
+
+#[test]
+fn rerooted_toml_datetime_prints_like_the_real_crate() {
+    let mut n = 0;
+    let years = [0u16, 1, 99, 999, 1979, 2000, 9999];
+    let nanos = [0u32, 1, 10, 100, 120_000_000, 123_456_789, 999_999_999, 500_000_000, 1_000, 100_000];
+    let offsets: [Option<i16>; 9] = [None, Some(0), Some(1), Some(-1), Some(59), Some(-60), Some(90), Some(-1439), Some(1439)];
+    for &year in &years {
+        for month in [1u8, 9, 12] {
+            for day in [1u8, 10, 31] {
+                for (hour, minute, second) in [(0u8, 0u8, 0u8), (7, 32, 5), (23, 59, 60)] {
+                    for &nanosecond in &nanos {
+                        for (k, off) in offsets.iter().enumerate() {
+                            for form in 0..4 {
+                                let rd = toml_datetime::Date { year, month, day };
+                                let rt = toml_datetime::Time { hour, minute, second, nanosecond };
+                                let ro = match (off, k) {
+                                    (None, _) => None,
+                                    (Some(0), 1) => Some(toml_datetime::Offset::Z),
+                                    (Some(m), _) => Some(toml_datetime::Offset::Custom { minutes: *m }),
+                                };
+                                let ed = td::Date { year, month, day };
+                                let et = td::Time { hour, minute, second, nanosecond };
+                                let eo = match (off, k) {
+                                    (None, _) => None,
+                                    (Some(0), 1) => Some(td::Offset::Z),
+                                    (Some(m), _) => Some(td::Offset::Custom { minutes: *m }),
+                                };
+                                let (real, e2) = match form {
+                                    0 => (
+                                        toml_datetime::Datetime { date: Some(rd), time: Some(rt), offset: ro },
+                                        td::Datetime { date: Some(ed), time: Some(et), offset: eo },
+                                    ),
+                                    1 => (
+                                        toml_datetime::Datetime { date: Some(rd), time: Some(rt), offset: None },
+                                        td::Datetime { date: Some(ed), time: Some(et), offset: None },
+                                    ),
+                                    2 => (
+                                        toml_datetime::Datetime { date: Some(rd), time: None, offset: None },
+                                        td::Datetime { date: Some(ed), time: None, offset: None },
+                                    ),
+                                    _ => (
+                                        toml_datetime::Datetime { date: None, time: Some(rt), offset: None },
+                                        td::Datetime { date: None, time: Some(et), offset: None },
+                                    ),
+                                };
+                                assert_eq!(real.to_string(), e2.to_string());
+                                n += 1;
+                            }
+                        }
+                    }
+                }
+            }
+        }
+    }
+    assert!(n > 50_000);
 }
